@@ -5,7 +5,7 @@
 
 package crypto
 
-//@ global eight != nil && val(eight) == 8 && eightInv != nil && val(eightInv) >= 0 && val(eightInv) % edN != 0
+//@ global eight != nil && val(eight) == 8 && eightInv != nil && val(eightInv) >= 0 && val(eightInv) % edN != 0 && val(eightInv) == invmod(8, edN)
 
 // ----- ecpoint.go -----
 
@@ -89,6 +89,8 @@ package crypto
 //@   props C06 C17 C10 C11 C12 C13 C15
 //@   requires validPoint(p) && isedw(p.curve)
 //@   ensures validPoint(result) && fresh(result) && result.curve == p.curve
+//@   ensures [C17.cofactor-clearing-is-8-times-then-8-inverse-times] px(result) == ecmulx(p.curve, ecmulx(p.curve, px(p), py(p), 8), ecmuly(p.curve, px(p), py(p), 8), invmod(8, edN)) && py(result) == ecmuly(p.curve, ecmulx(p.curve, px(p), py(p), 8), ecmuly(p.curve, px(p), py(p), 8), invmod(8, edN))
+//@   assume-ensures [L-cofactor] torsionfree(result.curve, px(result), py(result))
 
 //@ func (*ECPoint).ToECDSAPubKey
 //@   props C06
